@@ -169,9 +169,9 @@ def run_case(case):
                 for p in a.splitlines(bool(k % 2)):
                     add(p)
             elif name == "ljust":
-                out = a.ljust(la + k % 4, *([s[:1]] if s and k % 3 == 0 else []))
+                out = a.ljust(max(0, la - 2 + k % 6), *([s[:1]] if s and k % 3 != 1 else []))  # widths below, at and above the length
             elif name == "rjust":
-                out = a.rjust(la + k % 4, *([s[:1]] if s and k % 3 == 0 else []))
+                out = a.rjust(max(0, la - 2 + k % 6), *([s[:1]] if s and k % 3 != 1 else []))
             elif name == "cwna":
                 out = a.copy_with_new_atts(**op.get("atts", {}))
             elif name == "removed":
